@@ -631,7 +631,13 @@ pub fn div<
         // Optimize division as multiplication-by-reciprocal.
         //
         // This loses some precision, so we might want to revisit this in future.
-        (false, Some(scalar)) => mul(pool, a, Tensor::from_scalar(T::one() / *scalar).view()),
+        //
+        // The reciprocal keeps the shape of `b`, which may have a higher rank
+        // than `a` even though it has only one element.
+        (false, Some(scalar)) => {
+            let recip = Tensor::from_data(b.shape(), vec![T::one() / *scalar]);
+            mul(pool, a, recip.view())
+        }
         _ => binary_op(pool, a, b, &|x, y| x / y),
     }
 }
